@@ -14,8 +14,15 @@ import NeumannModel.Blob.Conc
     gc <now> <minAge> | fullgc | repair
     corrupt <keyhex> <datahex> | drop <keyhex>
     image                                    → canonical dump of the whole store
+    ! <any op>                               → `<answer>\t<image after the op>`
     chunks <c> <hex>                         → pure chunker
     sched <t> <thread;thread;..> <i,i,..>    → concurrent step machines under a schedule
+    calls <t> <thread;thread;..> <i,i,..>    → the same at call level (one entry = one TensorStore call):
+                                               `ok <done>/<n> <intact|broken> <call,call,..>`; the store is updated
+        threads: w:<id>:<chunk,chunk,..> | wd:<id>:<datahex> | d:<id> | g:<minCreated>[:<ordhex,..>] | f[:<ordIds>:<ordhex,..>]
+    exists a<n> | stats | vchunk <keyhex> | cexist a<n> | orphans | touch a<n>
+    gcsel <minCreated> <keyhex,..>           → gc_cycle that looked only at these keys (batch_size < chunk count)
+    ropen <r> a<n> | rnext <r> | rread <r> <n> | rall <r> | rverify <r> | rdrop <r>   (streaming reader)
 -/
 open Neumann Neumann.Proto Neumann.Blob
 
@@ -25,6 +32,7 @@ structure DState where
   cfg : Cfg
   st : State Key
   writers : List (Nat × Writer Key)
+  readers : List (Nat × Reader Key) := []
 
 def hid : List Nat → Key := id
 
@@ -52,14 +60,42 @@ def showImage (s : State Key) : String :=
 
 def showStats (r : Nat × Nat) : String := s!"ok {r.1} {r.2}"
 
-def parseThread (t : Nat) (s : String) : Option (Th Key) :=
+def parseNatsDot (s : String) : Option (List Nat) := if s = "." then some [] else parseNats s
+
+def parseThread (c t : Nat) (s : String) : Option (Th Key) :=
   match s.splitOn ":" with
   | ["w", id, pcs] => match id.toNat?, parsePieces pcs with
       | some i, some cds => some (Th.writer i t cds) | _, _ => none
+  | ["wd", id, d] => match id.toNat?, unhex d with
+      | some i, some d => some (Th.writer i t (chunks c d)) | _, _ => none
   | ["d", id] => id.toNat?.map Th.deleter
   | ["g", mc] => mc.toNat?.map Th.gc
+  | ["g", mc, ord] => match mc.toNat?, parsePieces ord with
+      | some mc, some ord => some (.gScan mc ord) | _, _ => none
   | ["f"] => some Th.fullGc
+  | ["f", oi, ok] => match parseNatsDot oi, parsePieces ok with
+      | some oi, some ok => some (.fScanMeta oi ok) | _, _ => none
   | _ => none
+
+def showCall : Option (Call Key) → String
+  | none => "-"
+  | some (.existsC k) => "e:" ++ hex k
+  | some (.getC k) => "g:" ++ hex k
+  | some (.putC k) => "p:" ++ hex k
+  | some (.delC k) => "d:" ++ hex k
+  | some (.getM id) => s!"gm:{id}"
+  | some (.putM id) => s!"pm:{id}"
+  | some (.delM id) => s!"dm:{id}"
+  | some .scanC => "sc"
+  | some .scanM => "sm"
+
+def showOptHex : Option (List Nat) → String
+  | none => "eof"
+  | some d => hex d
+
+def showR {α : Type} (f : α → String) : Except Err α → String
+  | .ok a => "ok " ++ f a
+  | .error e => showErr e
 
 def blobStep (ds : DState) (line : String) : DState × String :=
   let bad := (ds, "bad-op")
@@ -67,7 +103,7 @@ def blobStep (ds : DState) (line : String) : DState × String :=
   match words line with
   | ["reset", c, m] =>
       match c.toNat?, (if m = "-" then some none else m.toNat?.map some) with
-      | some c, some m => ({ cfg := ⟨c, m⟩, st := State.init, writers := [] }, "ok")
+      | some c, some m => ({ cfg := ⟨c, m⟩, st := State.init, writers := [], readers := [] }, "ok")
       | _, _ => bad
   | ["put", t, d] => match t.toNat?, unhex d with
       | some t, some d =>
@@ -138,11 +174,79 @@ def blobStep (ds : DState) (line : String) : DState × String :=
   | ["chunks", c, d] => match c.toNat?, unhex d with
       | some c, some d => (ds, ",".intercalate ((chunks c d).map hex) ++ ";")
       | _, _ => bad
-  | ["sched", t, ths, sc] => match t.toNat?.bind (fun t => (ths.splitOn ";").mapM (parseThread t)), parseNats sc with
+  | ["sched", t, ths, sc] => match t.toNat?.bind (fun t => (ths.splitOn ";").mapM (parseThread ds.cfg.chunkSize t)), parseNats sc with
       | some ths, some sc =>
         let r := runSched hid s ths sc
         ({ ds with st := r.1 }, s!"ok {(r.2.filter Th.isDone).length}/{r.2.length} " ++ (if liveIntact r.1 then "intact" else "broken"))
       | _, _ => bad
+  | ["calls", t, ths, sc] => match t.toNat?.bind (fun t => (ths.splitOn ";").mapM (parseThread ds.cfg.chunkSize t)), parseNats sc with
+      | some ths, some sc =>
+        let ths := ths.map settle
+        let r := runCalls hid s ths sc
+        let tr := callTrace hid s ths sc
+        ({ ds with st := r.1 }, s!"ok {(r.2.filter Th.isDone).length}/{r.2.length} " ++ (if liveIntact r.1 then "intact" else "broken")
+            ++ " " ++ (if tr.isEmpty then "." else ",".intercalate (tr.map showCall)))
+      | _, _ => bad
+  | ["exists", a] => match parseArt a with
+      | some id => (ds, s!"ok {existsArt s id}")
+      | none => bad
+  | ["touch", a] => match parseArt a with
+      | some id => (ds, if existsArt s id then "ok" else showErr .notFound)
+      | none => bad
+  | ["stats"] =>
+      let r := stats s
+      (ds, s!"ok {r.artifactCount} {r.chunkCount} {r.totalBytes} {r.uniqueBytes} {r.orphaned}")
+  | ["vchunk", k] => match unhex k with
+      | some k => (ds, showR (fun b : Bool => toString b) (verifyChunk hid s k))
+      | none => bad
+  | ["cexist", a] => match parseArt a with
+      | some id => (ds, showR (fun l : List Key => if l.isEmpty then "." else ",".intercalate (l.map hex)) (checkChunksExist s id))
+      | none => bad
+  | ["orphans"] =>
+      let l := sortStrs ((findOrphaned s).map hex)
+      (ds, "ok " ++ (if l.isEmpty then "." else ",".intercalate l))
+  | ["gcsel", mc, ks] => match mc.toNat?, parsePieces ks with
+      | some mc, some ks =>
+        let r := gcSel mc (fun k => ks.contains k) s
+        ({ ds with st := r.1 }, showStats r.2)
+      | _, _ => bad
+  | ["ropen", r, a] => match r.toNat?, parseArt a with
+      | some r, some id =>
+        (match rOpen s id with
+         | .error e => (ds, showErr e)
+         | .ok rd => ({ ds with readers := (r, rd) :: erase r ds.readers }, s!"ok {rd.chunks.length} {rd.total}"))
+      | _, _ => bad
+  | ["rnext", r] => match r.toNat?.bind (fun r => (find r ds.readers).map (fun rd => (r, rd))) with
+      | some (r, rd) =>
+        let x := rNext s.chunks rd
+        ({ ds with readers := (r, x.2) :: erase r ds.readers }, showR showOptHex x.1 ++ s!" {x.2.bytesRead}")
+      | none => bad
+  | ["rread", r, n] => match r.toNat?.bind (fun r => (find r ds.readers).map (fun rd => (r, rd))), n.toNat? with
+      | some (r, rd), some n =>
+        let x := rRead s.chunks rd n
+        ({ ds with readers := (r, x.2) :: erase r ds.readers }, showR hex x.1 ++ s!" {x.2.bytesRead}")
+      | _, _ => bad
+  | ["rall", r] => match r.toNat?.bind (fun r => (find r ds.readers).map (fun rd => (r, rd))) with
+      | some (r, rd) =>
+        let x := rAll s.chunks rd
+        ({ ds with readers := (r, x.2) :: erase r ds.readers }, showR hex x.1 ++ s!" {x.2.bytesRead}")
+      | none => bad
+  | ["rverify", r] => match r.toNat?.bind (fun r => (find r ds.readers).map (fun rd => (r, rd))) with
+      | some (r, rd) =>
+        let x := rVerify hid s.chunks rd
+        ({ ds with readers := (r, x.2) :: erase r ds.readers }, showR (fun b : Bool => toString b) x.1 ++ s!" {x.2.bytesRead}")
+      | none => bad
+  | ["rdrop", r] => match r.toNat? with
+      | some r => ({ ds with readers := erase r ds.readers }, "ok")
+      | none => bad
   | _ => bad
 
-def main : IO Unit := run blobStep { cfg := ⟨4, none⟩, st := State.init, writers := [] }
+/-- `! <op>` answers `<answer of op>\t<image after op>` in one round trip -/
+def blobStepImg (ds : DState) (line : String) : DState × String :=
+  match line.toList with
+  | '!' :: ' ' :: rest =>
+      let r := blobStep ds (String.ofList rest)
+      (r.1, r.2 ++ "\t" ++ showImage r.1.st)
+  | _ => blobStep ds line
+
+def main : IO Unit := run blobStepImg { cfg := ⟨4, none⟩, st := State.init, writers := [] }
